@@ -236,15 +236,16 @@ class NetworkGraph(AbstractBaseIR):
                                               nodes=nodes, spreads=spreads, dde_approx=dde_approx)
                     else:
                         # TODO: sort edges into unique delay/spread combinations and only loop over those
-                        if spreads:
-                            for i, (edge, delay, spread, node) in enumerate(zip(scalar_edges, delays, spreads, nodes)):
-                                self._add_edge_buffer(node_name, op_name, var_name, edges=[edge], delays=[delay],
-                                                      nodes=[node], spreads=[spread], dde_approx=dde_approx,
-                                                      buffer_id=f"_out{i}")
-                        else:
-                            for i, (edge, delay, node) in enumerate(zip(scalar_edges, delays, nodes)):
-                                self._add_edge_buffer(node_name, op_name, var_name, edges=[edge], delays=[delay],
-                                                      nodes=[node], dde_approx=dde_approx, buffer_id=f"_out{i}")
+                        # `delays` / `spreads` hold one entry per delay slot; an edge that stands for several
+                        # parallel edges between the same two variables owns as many slots as it has source indices
+                        pos = 0
+                        for i, (edge, node) in enumerate(zip(scalar_edges, nodes)):
+                            n_slots = max(len(node), 1)
+                            self._add_edge_buffer(node_name, op_name, var_name, edges=[edge],
+                                                  delays=delays[pos:pos + n_slots], nodes=[node],
+                                                  spreads=spreads[pos:pos + n_slots] if spreads else None,
+                                                  dde_approx=dde_approx, buffer_id=f"_out{i}")
+                            pos += n_slots
 
         # go through nodes again, and collect and process all inputs to each node variable
         ##################################################################################
